@@ -5,7 +5,7 @@ import vf
 
 META = dict(
     engine='ByteBuffer.tla',
-    technique='TLA+ spec ByteBuffer.tla model-checked by TLC; every TLC-generated transition/path replayed on the real byte buffer; recorded random histories validated by TLC (ByteBufferTrace.tla)',
+    technique='TLA+ spec ByteBuffer.tla model-checked by TLC (plus Apalache: bounds invariant inductive on the counter abstraction ByteBufferAbs.tla for unbounded capacity, refinement checked by TLC); every TLC-generated transition/path replayed on the real byte buffer; recorded random histories validated by TLC (ByteBufferTrace.tla)',
     level='TLC explores every reachable state of the byte-buffer specification for capacities up to the bound and checks the bounds invariant and the FIFO action properties in it; every transition of that state graph, all paths to a fixed depth and seeded walks are executed on the real code (ASan, exact-size blocks) and compared with the prescribed observation; long random histories recorded from the real code are validated step by step by TLC against the same specification.',
     note='Trusted: TLC, the adapter harness/bytebuf.c (projection of size/used/offset/octets), ASan for out-of-block accesses. Operations on a never-set-up buffer are outside the API contract and not exercised.',
 )
@@ -55,6 +55,20 @@ def run(tier):
                   depth=3 if quick else 4, budget=30000 if quick else 600000,
                   walks=200 if quick else 2000, walklen=300,
                   nontrivial=lambda u, evl, post: u != post or ' | -1 ' in evl)
+    # unbounded capacities: Apalache proves the bounds invariant inductive on the counter abstraction (ByteBufferAbs.tla),
+    # TLC's RefinesAbs property (above) ties every step of ByteBuffer.tla to a step of that abstraction
+    import subprocess, os
+    apa = []
+    for init, length in (('Init', '0'), ('IndInit', '1')):
+        r = subprocess.run(['timeout', '300', 'apalache-mc', 'check', '--init=' + init, '--inv=IndInv', '--length=' + length,
+                            '--out-dir=' + os.path.join(vf.OUT, '_apalache'), 'ByteBufferAbs.tla'],
+                           cwd=vf.SPEC, stdout=subprocess.PIPE, stderr=subprocess.STDOUT, text=True)
+        ok = 'EXITCODE: OK' in r.stdout
+        apa.append(dict(init=init, length=int(length), ok=ok))
+        if not ok:
+            print(r.stdout[-1500:])
+            vf.die('Apalache did not discharge the inductive invariant of ByteBufferAbs.tla (%s)' % init)
+    v.notes['apalache_inductive_invariant'] = apa
     rnd = random.Random(vf.seed())
     hs = histories(rnd, 48 if quick else 320, 400 if quick else 1500, 64 if quick else 200)
     vf.trace_flow(v, 'ByteBufferTrace.tla', 'ByteBufferTrace.cfg', 'bytebuf', hs, 'bbtrace')
